@@ -109,7 +109,9 @@ func loadWalker(repo string, tg target) (*walker, error) {
 					continue
 				}
 				w.methods[x.Name.Name] = x
-				if n == tg.file && !tg.ctors[x.Name.Name] {
+				// every method of the type in the whole package directory gets a table entry (shutdown.go,
+				// reflect_register.go ... declare *VM methods too): a field written there is a written field
+				if !tg.ctors[x.Name.Name] {
 					w.inVMGo = append(w.inVMGo, x.Name.Name)
 				}
 			}
@@ -225,6 +227,13 @@ func (e *emitter) expr(x ast.Expr, nested bool) {
 	case *ast.UnaryExpr:
 		e.expr(v.X, nested)
 	case *ast.BinaryExpr:
+		// recv.mapField == nil / != nil reads the field (it does not alias the map)
+		if f, ok := e.vmField(v.X); ok && e.w.isMap[f] {
+			if id, ok := v.Y.(*ast.Ident); ok && id.Name == "nil" {
+				e.read(f)
+				return
+			}
+		}
 		e.expr(v.X, nested)
 		e.expr(v.Y, nested)
 	case *ast.KeyValueExpr:
@@ -317,6 +326,8 @@ func (e *emitter) call(c *ast.CallExpr, nested bool) {
 		if e.mentionsRecv(f.X) {
 			ext = true
 		}
+	case *ast.ArrayType, *ast.MapType, *ast.ChanType, *ast.FuncType, *ast.InterfaceType, *ast.StarExpr:
+		// a conversion ([]T(x), (*T)(x)), not a call
 	default:
 		// a computed function value is called (vm.throwFallback()(acl), closures returned by calls): foreign code
 		e.expr(c.Fun, nested)
